@@ -322,6 +322,19 @@ def monitors(props, start_snap, start_dump, oplist, leaf, serial_cache):
             else:
                 if sts[i] == 409 and guarded_gen(op) and op.get('mv', 39) >= 23:
                     pass
+        # generations never decrease: a request that SUCCEEDS carrying a generation below the one the provider had when
+        # the race began cannot have been checked against the current generation in any schedule
+        noop_now = None
+        for i, op in enumerate(oplist):
+            if ok(sts[i]):
+                for (u, g_) in guarded_gen(op):
+                    g0 = start_dump['rps'].get(u, {}).get('gen')
+                    if g_ is not None and g0 is not None and g_ < g0:
+                        if noop_now is None:
+                            noop_now = noop_trait_puts(oplist, leaf)
+                        sig = 'c05:noop-traits-put-accepted-with-stale-generation' if i in noop_now else \
+                            'c05:accepted-with-past-generation:%s' % op['op']
+                        out.append((sig, 'request %d succeeded carrying generation %s of %s, which was already at %s' % (i, g_, u, g0)))
     if 'C06' in props:
         seen = {}
         for i, op in enumerate(oplist):
@@ -699,7 +712,8 @@ def pick_race(rng, g, v, profile):
         if 'uuid' in op and rng.random() < 0.85:
             op['uuid'] = target
             if 'gen' in op and op['gen'] is not None:
-                op['gen'] = v.rps.get(target, {}).get('gen', 0) if rng.random() < 0.85 else op['gen']
+                cur_g = v.rps.get(target, {}).get('gen', 0)
+                op['gen'] = cur_g if rng.random() < 0.85 else rng.choice([op['gen'], 0, max(0, cur_g - 1)])
             if k == 'inv_update' or k == 'inv_delete':
                 keys = [kk for kk in v.invs if kk[0] == target]
                 if keys:
@@ -731,6 +745,8 @@ def pick_race(rng, g, v, profile):
         if k == 'aggs_set' and 'mv' in op:
             op['mv'] = rng.choice([39, 39, 19, 18])
             op['gen'] = v.rps.get(op['uuid'], {}).get('gen', 0) if op['mv'] >= 19 else None
+            if op['gen'] and rng.random() < 0.2:
+                op['gen'] = rng.choice([0, op['gen'] - 1])      # a generation of the past (0: the first one every client saw)
         out.append(op)
     # directed variant: of two allocation writes for one consumer, one is built to be ACCEPTED on its own (small valid
     # amounts) and the other to be REJECTED at the write stage (one unit more than is left) - the pattern in which a
